@@ -201,6 +201,20 @@ func generated(a lib.Args) []RoundSpec {
 		}
 		out = append(out, RoundSpec{Kind: "db", DB: &d})
 	}
+	// several cold parent types sharing one warm child type; serializer-typed fields read by
+	// everybody right after open
+	nFan, nSer := 4, 4
+	if thorough {
+		nFan, nSer = 30, 30
+	}
+	for i := 0; i < nFan; i++ {
+		d := genFan(r.Fork(), []int{5, 10, 5, 15}[i%4])
+		out = append(out, RoundSpec{Kind: "db", DB: &d})
+	}
+	for i := 0; i < nSer; i++ {
+		d := genSerial(r.Fork(), []int{8, 16, 12, 4}[i%4], thorough)
+		out = append(out, RoundSpec{Kind: "db", DB: &d})
+	}
 	for i := 0; i < nProto; i++ {
 		p := genProto(r.Fork(), pgs[i%len(pgs)], thorough)
 		out = append(out, RoundSpec{Kind: "proto", Proto: &p})
